@@ -370,7 +370,7 @@ func (e *Explorer) RunOnce(sc *Scenario, prefix []int, expect [][]string) (res e
 }
 
 func (e *Explorer) runStable(sc *Scenario, prefix []int, expect [][]string) (execResult, bool) {
-	for attempt := 0; attempt < 12; attempt++ {
+	for attempt := 0; attempt < 40; attempt++ {
 		r := e.RunOnce(sc, prefix, expect)
 		if !r.ctl.Diverged {
 			return r, true
